@@ -20,6 +20,12 @@ NA = {
 }
 
 CHECKS = {
+ "C12": dict(
+   level="exploration",
+   text="Deterministic simulation of module-delivery histories. (A) A wrapper backend on the public Backend trait treats the generate_module call stream as a transport that replays, duplicates and reorders captured modules (also across several compilations in one run, with other TAGS/EXTENSIBILITY defaults); every delivery to the long-lived real backend must equal the same call on a fresh backend. (B) Sub-multisets and orders of generated module sets (2..5 modules, differing defaults, acyclic and cyclic import graphs, imported types/values in components, constraints and DEFAULTs) handed to one Compiler through every builder path, as literals/one literal/files: every module's block must be token-identical to its block in the stand-alone compilation (module + import cone, pristine process). (C) Every IMPORTS clause must become use super::<module>::{...} of exactly the imported symbols (plus documented associated types), * exactly under default_wildcard_imports, and module-qualified references must go through super::<module>::.",
+   note="Sampling, not proof. Known findings F1 (same bare name in two modules) and F5 (same enumeral/named number in two modules) are confined to their own scenarios and classified by renaming the shared spelling apart. Name mangling is learned by leave-one-out, not re-implemented.",
+   technique="deterministic simulation: message faults (drop, duplicate, reorder, replay) on the Backend delivery seam and on the Compiler builder; differential against fresh-backend and stand-alone references",
+   design="§4 C12"),
  "C17": dict(
    level="exploration",
    text="SLICE of the property: stored-byte corruption of valid generated sources (1..3 modules, LF/CRLF, comments). One byte replaced by a byte that starts no ASN.1 token, a 512-byte sector zero-filled, or truncation inside an assignment, at strict positions known from the generator's token map; small sources swept exhaustively over every strict byte, larger ones sampled, every header/assignment/END hit at its first and last byte; given as a literal and as a file whose bytes the simulated disk corrupts in flight. Oracle on every syntax error: offset within input and on a char boundary; line = 1 + line breaks before offset (also for the context start); position not before the first token of the malformed unit and not after the first corrupted byte; Display line = contextualize header line = contextualize flagged line = structured line; path reported iff the source was given by path.",
